@@ -105,7 +105,7 @@ def decorated(draw):
                 lines.append("")
         elif d == 4:
             n = draw(st.integers(1, 5))
-            lines.append("/* comment")
+            lines.append(draw(st.sampled_from(["/* comment", "/*", "/**", "/*\\", "/* *", "int cm%d; /*" % uid() if not block else "l_acc++; /*"])))
             for _ in range(n - 1):
                 lines.append("   more " + draw(st.sampled_from(["text", "# 1 \"not.c\"", "#line 7", "\\"])))
             lines.append("*/ " + filler(block))
